@@ -182,7 +182,7 @@ func LoadProg(dir string, overlay map[string][]byte) (*Prog, error) {
 				}
 			}
 			var orig []*ast.File
-			for round := 0; round < 4; round++ {
+			for round := 0; round < 6; round++ {
 				if round == 0 {
 					for _, f := range view.Syntax {
 						orig = append(orig, cloneAST(f).(*ast.File))
@@ -239,6 +239,14 @@ func LoadProg(dir string, overlay map[string][]byte) (*Prog, error) {
 					}
 					f.Decls = keep
 				}
+				var keptImports [][]*ast.ImportSpec
+				if removed {
+					// imports that only the removed helpers used go with them
+					for _, f := range view.Syntax {
+						keptImports = append(keptImports, f.Imports)
+						dropUnusedImportsOf(f, view.Types)
+					}
+				}
 				if removed {
 					if tp2, info2, err := recheck(pk.PkgPath, pk.Fset, view.Syntax, imp, pk.TypesSizes); err == nil {
 						view.Types, view.TypesInfo = tp2, info2
@@ -248,6 +256,7 @@ func LoadProg(dir string, overlay map[string][]byte) (*Prog, error) {
 						p.NormalizeLog = append(p.NormalizeLog, fmt.Sprintf("%s: helpers kept (%v)", rel(pk.PkgPath), err))
 						for i, f := range view.Syntax {
 							f.Decls = keptDecls[i]
+							f.Imports = keptImports[i]
 						}
 						if tp3, info3, err3 := recheck(pk.PkgPath, pk.Fset, view.Syntax, imp, pk.TypesSizes); err3 == nil {
 							view.Types, view.TypesInfo = tp3, info3
@@ -670,4 +679,69 @@ func (p *Prog) Stats() map[string]int {
 		"module_functions":    len(p.modFns),
 		"cha_callgraph_edges": edges,
 	}
+}
+
+// dropUnusedImportsOf removes the named or default-named imports of f that no qualified identifier of
+// the file refers to any more (blank and dot imports stay).  The import declarations are filtered in
+// place; an import declaration left without specs is removed.
+func dropUnusedImportsOf(f *ast.File, tp *types.Package) {
+	used := map[string]bool{}
+	ast.Inspect(f, func(n ast.Node) bool {
+		if se, ok := n.(*ast.SelectorExpr); ok {
+			if id, ok := se.X.(*ast.Ident); ok {
+				used[id.Name] = true
+			}
+		}
+		return true
+	})
+	nameOf := func(s *ast.ImportSpec) string {
+		if s.Name != nil {
+			return s.Name.Name
+		}
+		p := strings.Trim(s.Path.Value, `"`)
+		for _, ip := range tp.Imports() {
+			if ip.Path() == p {
+				return ip.Name()
+			}
+		}
+		return ""
+	}
+	drop := map[*ast.ImportSpec]bool{}
+	for _, s := range f.Imports {
+		n := nameOf(s)
+		if n == "" || n == "_" || n == "." || used[n] {
+			continue
+		}
+		drop[s] = true
+	}
+	if len(drop) == 0 {
+		return
+	}
+	var imps []*ast.ImportSpec
+	for _, s := range f.Imports {
+		if !drop[s] {
+			imps = append(imps, s)
+		}
+	}
+	f.Imports = imps
+	var decls []ast.Decl
+	for _, d := range f.Decls {
+		gd, ok := d.(*ast.GenDecl)
+		if !ok || gd.Tok != token.IMPORT {
+			decls = append(decls, d)
+			continue
+		}
+		var specs []ast.Spec
+		for _, s := range gd.Specs {
+			if is, ok := s.(*ast.ImportSpec); !ok || !drop[is] {
+				specs = append(specs, s)
+			}
+		}
+		if len(specs) == 0 {
+			continue
+		}
+		// a copy, so that the original declaration can be restored
+		decls = append(decls, &ast.GenDecl{Doc: gd.Doc, TokPos: gd.TokPos, Tok: gd.Tok, Lparen: gd.Lparen, Specs: specs, Rparen: gd.Rparen})
+	}
+	f.Decls = decls
 }
